@@ -53,16 +53,31 @@ abbrev Inv (mo : Module R) (s : Handler (WireList R) × Mgr R) : Prop := Sentine
 theorem inv_init (mo : Module R) : Inv mo (({}, {}) : Handler (WireList R) × Mgr R) := by
   simp [Inv, Sentinel.Datasource.Inv, validElems]
 
-/-- `reflect.DeepEqual` never claims equality of two different values.  (Go's does so in exactly one corner: `+0.0`
-    and `-0.0` in a float field; that corner is part of known finding `stale-equal-rule`.) -/
+/-- What the property needs of `reflect.DeepEqual(src, lastUpdateProperty)`: it only identifies values for which the same
+    rules count as being in force.  Implied by soundness (`SoundEq`: equal only if identical).  Go's DeepEqual is sound
+    except that (a) `+0.0` and `-0.0` in a float field are equal — harmless where the module's own rule equality
+    identifies them too (flow thresholds), a genuine deviation where it does not (system/circuit-breaker thresholds:
+    the signed-zero part of known finding `stale-equal-rule`) — and (b) `lastUpdateProperty` holds the *same rule
+    objects* the flow manager normalised in place (default warm-up cold factor), so a later payload is compared with the
+    normalised rules, for which the same rules are in force.  The driver's `eqv` implements both. -/
+def SoundFor (mo : Module R) (eqv : Option (WireList R) → Option (WireList R) → Bool) : Prop :=
+  ∀ a b, eqv a b = true → ∀ es, List.Forall₂ (InForceFor mo) es (validElems mo.valid b) →
+    List.Forall₂ (InForceFor mo) es (validElems mo.valid a)
+
+/-- `reflect.DeepEqual` never claims equality of two different values -/
 def SoundEq (eqv : Option D → Option D → Bool) : Prop := ∀ a b, eqv a b = true → a = b
+
+theorem soundEq_soundFor (mo : Module R) (eqv : Option (WireList R) → Option (WireList R) → Bool) (h : SoundEq eqv) :
+    SoundFor mo eqv := by
+  intro a b hab es hes
+  rw [h a b hab]; exact hes
 
 /-- The property as stated, for one delivery: a converter either yields a value or an error (it must not panic);
     a value is applied — `nil` returned, the valid rules of *that* list in force — and an error leaves everything as
     it was. -/
 def faithful_or_rejected_statement : Prop :=
   ∀ {B R : Type} (conv : B → Conv (WireList R)) (eqv : Option (WireList R) → Option (WireList R) → Bool)
-    (mo : Module R) (s : Handler (WireList R) × Mgr R) (src : B), SoundEq eqv → Inv mo s →
+    (mo : Module R) (s : Handler (WireList R) × Mgr R) (src : B), SoundFor mo eqv → Inv mo s →
     let r := deliver conv eqv mo s src
     Inv mo r.1 ∧
     ((∃ v, conv src = .ok v ∧ r.2 = .ret .nil ∧
@@ -72,7 +87,7 @@ def faithful_or_rejected_statement : Prop :=
 /-- proved for every converter result except a converter *panic* -/
 theorem faithful_or_rejected_partial (conv : B → Conv (WireList R))
     (eqv : Option (WireList R) → Option (WireList R) → Bool)
-    (mo : Module R) (s : Handler (WireList R) × Mgr R) (src : B) (hsound : SoundEq eqv) (hinv : Inv mo s)
+    (mo : Module R) (s : Handler (WireList R) × Mgr R) (src : B) (hsound : SoundFor mo eqv) (hinv : Inv mo s)
     (hnp : conv src ≠ .panic) :
     let r := deliver conv eqv mo s src
     Inv mo r.1 ∧
@@ -86,9 +101,8 @@ theorem faithful_or_rejected_partial (conv : B → Conv (WireList R))
     rw [this]; exact ⟨hinv, Or.inr ⟨he, rfl, rfl⟩⟩
   · have : r = (s, .ret .nil) := hr
     rw [this]
-    have hl : v = s.1.last := hsound _ _ hc
-    exact ⟨hinv, Or.inl ⟨v, hv, rfl, by simpa [Inv, Sentinel.Datasource.Inv, hl] using hinv⟩⟩
-  · have : r = (({ last := v }, { enforced := enforcedOf mo.valid mo.norm mo.equiv s.2.enforced v }), .ret .nil) := hr
+    exact ⟨hinv, Or.inl ⟨v, hv, rfl, hsound _ _ hc _ hinv⟩⟩
+  · have : r = (({ last := v }, { enforced := enforcedOf mo.valid mo.norm mo.equiv mo.reusable s.2.enforced v }), .ret .nil) := hr
     rw [this]
     have hrel := reuseBuild_rel mo (validElems mo.valid v) s.2.enforced
     exact ⟨by simpa [Inv, Sentinel.Datasource.Inv, enforcedOf] using hrel,
@@ -107,7 +121,7 @@ theorem convPlain_never_panics (ts : List Tag) (empty : Bool) (tree : Option Jso
     (`isEmpty` and `parse`, the text-level JSON parser, are arbitrary) -/
 theorem faithful_or_rejected_plain (ts : List Tag) (isEmpty : B → Bool) (parse : B → Option Json)
     (eqv : Option (WireList Rec) → Option (WireList Rec) → Bool) (mo : Module Rec)
-    (s : Handler (WireList Rec) × Mgr Rec) (src : B) (hsound : SoundEq eqv) (hinv : Inv mo s) :
+    (s : Handler (WireList Rec) × Mgr Rec) (src : B) (hsound : SoundFor mo eqv) (hinv : Inv mo s) :
     let conv := fun b => convPlain ts (isEmpty b) (parse b)
     let r := deliver conv eqv mo s src
     Inv mo r.1 ∧
@@ -129,7 +143,7 @@ theorem inForce_exact (valid : R → Bool) (norm : R → R) (es rs : List R)
 
 /-- the invariant survives every delivery, whatever the converter does (a converter panic leaves the state alone) -/
 theorem inv_deliver (conv : B → Conv (WireList R)) (eqv : Option (WireList R) → Option (WireList R) → Bool)
-    (mo : Module R) (hsound : SoundEq eqv) (s : Handler (WireList R) × Mgr R) (b : B) (hs : Inv mo s) :
+    (mo : Module R) (hsound : SoundFor mo eqv) (s : Handler (WireList R) × Mgr R) (b : B) (hs : Inv mo s) :
     Inv mo (deliver conv eqv mo s b).1 := by
   by_cases hp : conv b = .panic
   · rcases deliver_cases conv eqv mo s b with ⟨_, hr⟩ | ⟨he, _⟩ | ⟨v, hv, _, _⟩ | ⟨v, hv, _, _⟩
@@ -141,7 +155,7 @@ theorem inv_deliver (conv : B → Conv (WireList R)) (eqv : Option (WireList R) 
 
 /-- a decodable payload is in force afterwards -/
 theorem deliver_ok_inforce (conv : B → Conv (WireList R)) (eqv : Option (WireList R) → Option (WireList R) → Bool)
-    (mo : Module R) (hsound : SoundEq eqv) (s : Handler (WireList R) × Mgr R) (b : B) (hs : Inv mo s)
+    (mo : Module R) (hsound : SoundFor mo eqv) (s : Handler (WireList R) × Mgr R) (b : B) (hs : Inv mo s)
     (v : Option (WireList R)) (hv : conv b = .ok v) :
     List.Forall₂ (InForceFor mo) (deliver conv eqv mo s b).1.2.enforced (validElems mo.valid v) := by
   have hnp : conv b ≠ .panic := by simp [hv]
@@ -152,7 +166,7 @@ theorem deliver_ok_inforce (conv : B → Conv (WireList R)) (eqv : Option (WireL
 /-- histories: from fresh handlers and cleared managers the invariant holds after every sequence of deliveries,
     whatever the converter does (a converter panic leaves the state alone) -/
 theorem inv_history (conv : B → Conv (WireList R)) (eqv : Option (WireList R) → Option (WireList R) → Bool)
-    (mo : Module R) (hsound : SoundEq eqv) (srcs : List B) :
+    (mo : Module R) (hsound : SoundFor mo eqv) (srcs : List B) :
     Inv mo (srcs.foldl (fun s b => (deliver conv eqv mo s b).1) ({}, {})) := by
   suffices h : ∀ s, Inv mo s → Inv mo (srcs.foldl (fun s b => (deliver conv eqv mo s b).1) s) from h _ (inv_init mo)
   induction srcs with
@@ -187,7 +201,8 @@ theorem faithful_or_rejected_false : ¬ faithful_or_rejected_statement := by
     { valid := fun _ => true } ({}, {})
   have := h (fun (_ : Unit) => convHotspot ⟨fun _ => none, fun _ => none, fun _ => none⟩ false
       (some (Json.arr [.null, .obj [("resource", .str "b")]])))
-    (fun a b => decide (a = b)) { valid := fun _ => true } ({}, {}) () (by intro a b hab; simpa using hab) (inv_init _)
+    (fun a b => decide (a = b)) { valid := fun _ => true } ({}, {}) ()
+    (soundEq_soundFor _ _ (by intro a b hab; simpa using hab)) (inv_init _)
   obtain ⟨hp, _⟩ := hw
   dsimp only at hp
   rcases this.2 with ⟨v, hv, _⟩ | ⟨he, _⟩
@@ -221,9 +236,9 @@ theorem redelivery_noop (conv : B → Conv (WireList R)) (eqv : Option (WireList
     rw [e1]; exact hr
   · have e1 : r1 = (s, .ret .nil) := hr
     rw [e1]; exact hr
-  · have e1 : r1 = (({ last := v }, { enforced := enforcedOf mo.valid mo.norm mo.equiv s.2.enforced v }), .ret .nil) := hr
+  · have e1 : r1 = (({ last := v }, { enforced := enforcedOf mo.valid mo.norm mo.equiv mo.reusable s.2.enforced v }), .ret .nil) := hr
     rw [e1]
-    rcases deliver_cases conv eqv mo ({ last := v }, { enforced := enforcedOf mo.valid mo.norm mo.equiv s.2.enforced v }) src
+    rcases deliver_cases conv eqv mo ({ last := v }, { enforced := enforcedOf mo.valid mo.norm mo.equiv mo.reusable s.2.enforced v }) src
       with ⟨hp, _⟩ | ⟨he, _⟩ | ⟨v', hv', _, hr'⟩ | ⟨v', hv', hc', _⟩
     · rw [hp] at hv; cases hv
     · rw [he] at hv; cases hv
@@ -248,9 +263,9 @@ theorem redelivery_noop_exact (conv : B → Conv (WireList R)) (eqv : Option (Wi
     rw [e1]; exact hr
   · have e1 : r1 = (s, .ret .nil) := hr
     rw [e1]; exact hr
-  · have e1 : r1 = (({ last := v }, { enforced := enforcedOf mo.valid mo.norm mo.equiv s.2.enforced v }), .ret .nil) := hr
+  · have e1 : r1 = (({ last := v }, { enforced := enforcedOf mo.valid mo.norm mo.equiv mo.reusable s.2.enforced v }), .ret .nil) := hr
     rw [e1]
-    rcases deliver_cases conv eqv mo ({ last := v }, { enforced := enforcedOf mo.valid mo.norm mo.equiv s.2.enforced v }) src
+    rcases deliver_cases conv eqv mo ({ last := v }, { enforced := enforcedOf mo.valid mo.norm mo.equiv mo.reusable s.2.enforced v }) src
       with ⟨hp, _⟩ | ⟨he, _⟩ | ⟨v', hv', _, hr'⟩ | ⟨v', hv', _, hr'⟩
     · rw [hp] at hv; cases hv
     · rw [he] at hv; cases hv
@@ -262,7 +277,7 @@ theorem redelivery_noop_exact (conv : B → Conv (WireList R)) (eqv : Option (Wi
 
 /-- an empty payload (`(nil, nil)` from the converter), `null` and `[]` clear the rules -/
 theorem empty_clears (conv : B → Conv (WireList R)) (eqv : Option (WireList R) → Option (WireList R) → Bool)
-    (mo : Module R) (s : Handler (WireList R) × Mgr R) (src : B) (hsound : SoundEq eqv) (hinv : Inv mo s)
+    (mo : Module R) (s : Handler (WireList R) × Mgr R) (src : B) (hsound : SoundFor mo eqv) (hinv : Inv mo s)
     (hc : conv src = .ok none ∨ conv src = .ok (some none) ∨ conv src = .ok (some (some []))) :
     let r := deliver conv eqv mo s src
     r.2 = .ret .nil ∧ r.1.2.enforced = [] := by
@@ -318,7 +333,7 @@ theorem hotspot_paramkey_dropped_witness (sc : StrConv) :
 
 /-- `stale-equal-rule`: a delivered rule that the module judges equal to one in force leaves the *old* object in force -/
 theorem stale_equal_rule_witness (mo : Module R) (o r : R) (hval : mo.valid r = true) (heq : mo.equiv o r = true) :
-    enforcedOf mo.valid mo.norm mo.equiv [o] (some (some [some r])) = [o] := by
+    enforcedOf mo.valid mo.norm mo.equiv mo.reusable [o] (some (some [some r])) = [o] := by
   simp [enforcedOf, validElems, WireList.elems, reuseBuild, hval, heq]
 
 /-! ## 7. Refreshable file source -/
@@ -335,7 +350,7 @@ def FileInv (conv : B → Conv (WireList R)) (mo : Module R) (s : FileSrc B R) :
     (an undecodable content leaves the previous rules, by `faithful_or_rejected`); after a removal — and when the file
     never existed — the rules are cleared, and stay so. -/
 theorem file_source_converges (conv : B → Conv (WireList R)) (eqv : Option (WireList R) → Option (WireList R) → Bool)
-    (mo : Module R) (empty : B) (hsound : SoundEq eqv) (hempty : conv empty = .ok none) (c0 : Option B)
+    (mo : Module R) (empty : B) (hsound : SoundFor mo eqv) (hempty : conv empty = .ok none) (c0 : Option B)
     (evs : List (FileEv B)) :
     FileInv conv mo (FileSrc.run conv eqv mo empty (FileSrc.init conv eqv mo c0).1 evs) := by
   have hinit : FileInv conv mo (FileSrc.init conv eqv mo c0).1 := by
